@@ -12,6 +12,16 @@ namespace LdarModel.Crew
 
 /-- the property at full strength over one day of `deploy_crews` -/
 def C08_statement : Prop :=
+  -- the budget the loop is started with is the workday, capped by daylight when daylight is
+  -- considered, and with that budget no crew's minutes (incl. the trip home) exceed either
+  (∀ (p : MethodP) (cd : Bool) (w dl : Int) (n : Nat) (reqs : List Req), 0 ≤ w → 0 ≤ dl →
+    (∀ r ∈ reqs, ReqOk p r) →
+    dayBudget cd w dl = 60 * (if cd then min w dl else w) ∧
+    ∀ c ∈ (deployDay p (dayBudget cd w dl) n reqs).crews,
+      crewMinutes c.id (deployDay p (dayBudget cd w dl) n reqs).out
+        + crewHome c.id (deployDay p (dayBudget cd w dl) n reqs).out ≤ 60 * w ∧
+      (cd = true → crewMinutes c.id (deployDay p (dayBudget cd w dl) n reqs).out
+        + crewHome c.id (deployDay p (dayBudget cd w dl) n reqs).out ≤ 60 * dl)) ∧
   ∀ (p : MethodP) (budget : Int) (n : Nat) (reqs : List Req),
     0 ≤ budget → (∀ r ∈ reqs, ReqOk p r) →
     let d := deployDay p budget n reqs
@@ -31,7 +41,10 @@ def C08_statement : Prop :=
         workable p o.req = true ∧ (p.considerWeather = true → checkWeather p.env o.req.wx = true)) ∧
     (∀ o ∈ d.out, workable p o.req = false → o.rep = o.req.rep ∧ requeueClass o.rep ≠ none) ∧
     -- one record per planned request, in plan order
-    d.out.map (·.req) = reqs
+    d.out.map (·.req) = reqs ∧
+    -- the reports handed back for unfinished surveys are again admissible requests: the day can
+    -- be iterated ("all days of a simulation")
+    (∀ o ∈ d.out, o.rep.complete = false → ReqOk p { o.req with rep := o.rep })
 
 /-! ### the survey step (all integer `R, S, T, P`) -/
 
@@ -179,12 +192,51 @@ theorem one_report_per_request (p : MethodP) (budget : Int) (n : Nat) (reqs : Li
   have := serveAll_reqs p reqs { crews := initCrews budget n }
   unfold deployDay; rw [finalize_out, this]; simp
 
+/-- **next-day invariant**: a report that `deploy_crews` hands back unfinished is again an admissible
+request (`0 ≤ P ≤ S`, stationary ⇒ `P = 0`, not complete), so every theorem about one day applies to
+the next day's plan built from today's reports -/
+theorem out_reqOk (p : MethodP) (budget : Int) (hb : 0 ≤ budget) (n : Nat) (reqs : List Req)
+    (hreq : ∀ r ∈ reqs, ReqOk p r) :
+    ∀ o ∈ (deployDay p budget n reqs).out, o.rep.complete = false →
+      ReqOk p { o.req with rep := o.rep } := by
+  intro o ho hc
+  have hrec := deployDay_recOk p budget n reqs o ho
+  have hrb := (deployDay_bookInv p budget hb n reqs hreq).rb o ho
+  have hreqs : o.req ∈ reqs := by
+    have := serveAll_reqs p reqs { crews := initCrews budget n }
+    have hm : o.req ∈ (deployDay p budget n reqs).out.map (·.req) := List.mem_map.2 ⟨o, ho, rfl⟩
+    unfold deployDay at hm; rw [finalize_out, this] at hm; simpa using hm
+  have hq := hreq o.req hreqs
+  cases hs : o.step with
+  | none =>
+    have := (hrec.2 hs).1
+    exact ⟨hq.hT, by rw [this]; exact hq.hP, by rw [this]; exact hq.hPS, by rw [this]; exact hq.hSt, hc⟩
+  | some s =>
+    obtain ⟨h1, h2, _⟩ := hrec.1 s hs
+    have ok := hq.stepOk hrb
+    have hsv := step_surveyed ok (workable p o.req)
+    have hid := step_idle o.rBefore o.req.S o.req.T o.req.rep.surveyed p.stationary (workable p o.req)
+    have htd := step_today_nonneg ok (workable p o.req)
+    rw [← h1] at hsv hid htd
+    simp only at hsv
+    have hbr : s.branch = .unworkable ∨ s.branch = .complete ∨ s.branch = .partial_ ∨ s.branch = .noTime := by
+      cases s.branch <;> simp
+    have hP := hq.hP
+    have hPS := hq.hPS
+    have hSt := hq.hSt
+    have hE : effS p.stationary o.req.S = if p.stationary = true then 0 else o.req.S := rfl
+    refine ⟨hq.hT, ?_, ?_, ?_, hc⟩ <;> (rw [h2] at hc ⊢; unfold applyStep at hc ⊢) <;>
+      rcases hbr with hb' | hb' | hb' | hb' <;> simp only [hb'] at hc hsv hid ⊢ <;> grind
+
 /-- C08, for every method, budget, crew count and work plan -/
 theorem C08 : C08_statement := by
+  refine ⟨fun p cd w dl n reqs hw hd hreq => ⟨?_, day_budget_workday p cd w dl hw hd n reqs hreq⟩, ?_⟩
+  · have := budget_daylight w dl
+    cases cd <;> simp [this]
   intro p budget n reqs hb hreq
   refine ⟨?_, day_visits p budget hb n reqs hreq, crews_used p budget hb n reqs hreq,
           weather_visited p budget n reqs, weather_unworkable p budget n reqs hreq,
-          one_report_per_request p budget n reqs⟩
+          one_report_per_request p budget n reqs, out_reqOk p budget hb n reqs hreq⟩
   intro c hc
   exact ⟨day_rem_nonneg p budget hb n reqs hreq c hc, day_budget p budget hb n reqs hreq c hc⟩
 
